@@ -5,3 +5,159 @@ From Drummer.Proofs Require Import KVCodecProofs.
 Theorem C20_terminator : forall o, exists p, marshal_to o = p ++ [127].
 Proof. exact marshal_to_last. Qed.
 Print Assumptions C20_terminator.
+
+(** 1. MarshalLen (when it succeeds) is exactly the number of bytes MarshalTo writes. *)
+Theorem C20_len : forall sm o l, marshal_len sm o = Some l -> nlen (marshal_to o) = l.
+Proof. exact marshal_len_ok. Qed.
+Print Assumptions C20_len.
+
+(** 2. MarshalBinary returns exactly the MarshalTo bytes (no padding) and never panics. *)
+Theorem C20_marshal_binary_ok : forall sm o l,
+  marshal_len sm o = Some l -> marshal_binary sm o = MOk (marshal_to o).
+Proof. exact marshal_binary_ok. Qed.
+Print Assumptions C20_marshal_binary_ok.
+
+Theorem C20_marshal_never_crashes : forall sm o, marshal_binary sm o <> MCrash.
+Proof. exact marshal_never_crashes. Qed.
+Print Assumptions C20_marshal_never_crashes.
+
+(** 3. The index-based literal transcription equals the list-consuming decoder. *)
+Theorem C20_ix_ls : forall sm o data, unmarshal_ix sm o data = unmarshal_ls sm o data.
+Proof. exact unmarshal_ix_ls. Qed.
+Print Assumptions C20_ix_ls.
+
+(** 4. No input makes Unmarshal / UnmarshalBinary index out of range: the bounds tests
+       present in the code are sufficient (every read in [unmarshal_ix] is checked). *)
+Theorem C20_no_crash : forall sm o data, snd (unmarshal_ix sm o data) <> Crash.
+Proof. exact unmarshal_ix_no_crash. Qed.
+Print Assumptions C20_no_crash.
+
+Theorem C20_no_crash_binary : forall sm o data, snd (unmarshal_binary_ix sm o data) <> Crash.
+Proof. exact unmarshal_binary_ix_no_crash. Qed.
+Print Assumptions C20_no_crash_binary.
+
+(** 5. The number of bytes reported as read never exceeds the input length. *)
+Theorem C20_consumed_le : forall sm o data o' i,
+  unmarshal_ix sm o data = (o', OkN i) -> i <= nlen data.
+Proof. exact unmarshal_ix_consumed_le. Qed.
+Print Assumptions C20_consumed_le.
+
+(** 6. Round trip (strictly below the size limit). *)
+Theorem C20_roundtrip : forall sm o o0 l,
+  sm < 2 ^ 63 -> marshal_len sm o = Some l -> l < sm ->
+  unmarshal_ix sm o0 (marshal_to o) =
+  (mkKV (if nlen (key o) =? 0 then key o0 else key o)
+        (if nlen (val o) =? 0 then val o0 else val o), OkN l).
+Proof. exact roundtrip_ix. Qed.
+Print Assumptions C20_roundtrip.
+
+Theorem C20_roundtrip_fresh : forall sm o l,
+  sm < 2 ^ 63 -> marshal_len sm o = Some l -> l < sm ->
+  unmarshal_ix sm (mkKV [] []) (marshal_to o) = (o, OkN l).
+Proof. exact roundtrip_fresh. Qed.
+Print Assumptions C20_roundtrip_fresh.
+
+Theorem C20_roundtrip_binary : forall sm o o0 l,
+  sm < 2 ^ 63 -> marshal_len sm o = Some l -> l < sm ->
+  unmarshal_binary_ix sm o0 (marshal_to o) =
+  (mkKV (if nlen (key o) =? 0 then key o0 else key o)
+        (if nlen (val o) =? 0 then val o0 else val o), OkN l).
+Proof. exact roundtrip_binary. Qed.
+Print Assumptions C20_roundtrip_binary.
+
+Theorem C20_roundtrip_binary_fresh : forall sm o l,
+  sm < 2 ^ 63 -> marshal_len sm o = Some l -> l < sm ->
+  unmarshal_binary_ix sm (mkKV [] []) (marshal_to o) = (o, OkN l).
+Proof. exact roundtrip_binary_fresh. Qed.
+Print Assumptions C20_roundtrip_binary_fresh.
+
+(** 6'. Unmarshal of an honest encoding followed by arbitrary bytes (stream use). *)
+Theorem C20_roundtrip_suffix : forall sm o o0 l suffix,
+  sm < 2 ^ 63 -> marshal_len sm o = Some l -> l < sm ->
+  unmarshal_ix sm o0 (marshal_to o ++ suffix) =
+  (mkKV (if nlen (key o) =? 0 then key o0 else key o)
+        (if nlen (val o) =? 0 then val o0 else val o), OkN l).
+Proof. exact roundtrip_ix_suffix. Qed.
+Print Assumptions C20_roundtrip_suffix.
+
+(** 7. UnmarshalBinary reports trailing bytes as ColferTail(l). *)
+Theorem C20_tail : forall sm o o0 l suffix,
+  sm < 2 ^ 63 -> marshal_len sm o = Some l -> l < sm -> suffix <> [] ->
+  snd (unmarshal_binary_ix sm o0 (marshal_to o ++ suffix)) = Tail l.
+Proof. exact tail_snd. Qed.
+Print Assumptions C20_tail.
+
+Theorem C20_tail_full : forall sm o o0 l suffix,
+  sm < 2 ^ 63 -> marshal_len sm o = Some l -> l < sm -> suffix <> [] ->
+  unmarshal_binary_ix sm o0 (marshal_to o ++ suffix) =
+  (mkKV (if nlen (key o) =? 0 then key o0 else key o)
+        (if nlen (val o) =? 0 then val o0 else val o), Tail l).
+Proof. exact tail_full. Qed.
+Print Assumptions C20_tail_full.
+
+(** 8. Known open finding: the encoder accepts length == size_max, the decoder rejects it. *)
+Theorem C20_boundary_refuted : exists sm o l,
+  marshal_len sm o = Some l /\ l = sm /\
+  snd (unmarshal_ix sm (mkKV [] []) (marshal_to o)) = Max.
+Proof. exact boundary_refuted. Qed.
+Print Assumptions C20_boundary_refuted.
+
+(** Non-vacuity: the hypotheses are satisfiable on realistic values and the
+    conclusions are the expected concrete ones. *)
+
+Example ex_sm_lt : 16777216 < 2 ^ 63.
+Proof. reflexivity. Qed.
+
+Example ex_len : marshal_len 16777216 (mkKV (repeat 7 200) [3; 4]) = Some 208.
+Proof. vm_compute. reflexivity. Qed.
+
+Example ex_len_lt : 208 < 16777216.
+Proof. reflexivity. Qed.
+
+(* the 200-byte key needs a two-byte varint: 200 = 0xC8 -> [0xC8; 0x01] *)
+Example ex_bytes : firstn 3 (marshal_to (mkKV (repeat 7 200) [3; 4])) = [0; 200; 1].
+Proof. vm_compute. reflexivity. Qed.
+
+Example ex_marshal_binary : marshal_binary 16777216 (mkKV (repeat 7 200) [3; 4]) = MOk (marshal_to (mkKV (repeat 7 200) [3; 4])).
+Proof. vm_compute. reflexivity. Qed.
+
+Example ex_roundtrip : unmarshal_ix 16777216 (mkKV [] []) (marshal_to (mkKV (repeat 7 200) [3; 4])) = (mkKV (repeat 7 200) [3; 4], OkN 208).
+Proof. vm_compute. reflexivity. Qed.
+
+Example ex_roundtrip_keep_old :
+  unmarshal_ix 16777216 (mkKV [9] [8]) (marshal_to (mkKV [] [5])) = (mkKV [9] [5], OkN 4).
+Proof. vm_compute. reflexivity. Qed.
+
+Example ex_tail : unmarshal_binary_ix 16777216 (mkKV [] []) (marshal_to (mkKV (repeat 7 200) [3; 4]) ++ [0]) = (mkKV (repeat 7 200) [3; 4], Tail 208).
+Proof. vm_compute. reflexivity. Qed.
+
+(* encoder-side errors exist (C20_len's hypothesis is not always true) *)
+Example ex_len_none : marshal_len 4 (mkKV [1; 2; 3; 4; 5] []) = None.
+Proof. vm_compute. reflexivity. Qed.
+
+Example ex_marshal_err : marshal_binary 4 (mkKV [1; 2; 3; 4; 5] []) = MErr.
+Proof. vm_compute. reflexivity. Qed.
+
+(* the decoder really has truncated / hostile inputs that end in the error paths, not in Crash *)
+Example ex_truncated : snd (unmarshal_ix 16777216 (mkKV [] []) [0; 200; 1; 7; 7]) = EOF.
+Proof. vm_compute. reflexivity. Qed.
+
+Example ex_truncated_varint : snd (unmarshal_ix 16777216 (mkKV [] []) [0; 200]) = EOF.
+Proof. vm_compute. reflexivity. Qed.
+
+Example ex_huge_varint :
+  snd (unmarshal_ix 16777216 (mkKV [] []) [0; 255; 255; 255; 255; 255; 255; 255; 255; 255; 255; 1; 127]) = Max.
+Proof. vm_compute. reflexivity. Qed.
+
+Example ex_bad_header : snd (unmarshal_ix 16777216 (mkKV [] []) [5; 127]) = Hdr 0.
+Proof. vm_compute. reflexivity. Qed.
+
+(* the unchecked read does crash in the model when a test is missing: [get]/[slice] are real checks *)
+Example ex_get_checked : get [1; 2; 3] 3 = None /\ slice [1; 2; 3] 2 4 = None.
+Proof. vm_compute. split; reflexivity. Qed.
+
+(* boundary finding, concrete *)
+Example ex_boundary :
+  marshal_len 8 (mkKV [1; 2; 3; 4; 5] []) = Some 8 /\
+  unmarshal_ix 8 (mkKV [] []) (marshal_to (mkKV [1; 2; 3; 4; 5] [])) = (mkKV [1; 2; 3; 4; 5] [], Max).
+Proof. vm_compute. split; reflexivity. Qed.
